@@ -87,7 +87,7 @@ def _m_str_subclass(v):
     return bool(rts) and all((not r["dumps"]) and r["err"] == UNMARSHALLABLE and r["oddstr"]
                              and r["odd"] == r["oddstr"] for r in rts)
   if clause == "C24.roundtrip":     # the only difference is the class of those leaves
-    return bool(rts) and all(r["oddstr"] and r["odd"] == r["oddstr"] and _MARK.sub("", r["enc"]) == r["enc2"]
+    return bool(rts) and all(r["oddstr"] and r["odd"] == r["oddstr"] and r.get("differs_by_class_only")
                              for r in rts)
   return False
 
@@ -102,8 +102,7 @@ def _m_datetime_max(v):
   if v["clause"] != "C24.roundtrip":
     return False
   _calls, rts = _culprits(v["case"], v["clause"])
-  return bool(rts) and all(_DT_MAX in r["enc"] and r["enc"].replace(_DT_MAX, "[sE,sOverflowError]") == r["enc2"]
-                           for r in rts)
+  return bool(rts) and all(r.get("differs_by_datetime_max_only") for r in rts)
 
 
 def _m_deep_recursion(v):
@@ -151,6 +150,10 @@ def _trim(case):
   """Violation records keep tokens short (a value can be 70 kB of text); the replayable input is `spec`."""
   c = json.loads(json.dumps(case))
   for r in c["rts"]:
+    # two facts about the full tokens that the matchers read (tokens are cut below)
+    r["differs_by_class_only"] = r["enc"] != r["enc2"] and _MARK.sub("", r["enc"]) == r["enc2"]
+    r["differs_by_datetime_max_only"] = _DT_MAX in r["enc"] and \
+        r["enc"].replace(_DT_MAX, "[sE,sOverflowError]") == r["enc2"]
     for k in ("enc", "enc2", "back"):
       if len(r[k]) > TOKEN_CAP:
         r[k] = r[k][:TOKEN_CAP] + "...(%d)" % len(r[k])
